@@ -19,6 +19,6 @@ w = {}
 for mname, mi in prog.modules.items():
     for ci in mi.classes.values():
         for fi in ci.methods.values():
-            w[f'{mname}:{fi.qualname}'] = sorted(written_attrs(fi.node))
+            w[f'{mname}:{fi.qualname}'] = dict(sorted(written_attrs(fi.node).items()))
 json.dump(w, open('/verif/pkstatic/known_writes.json', 'w'), indent=0, sort_keys=True)
 print(len(w), 'methods with write sets')
